@@ -105,6 +105,8 @@ structure GInv (x : GSys) : Prop where
   peers : ∀ (p : Nat) (ps : PeerSt), x.sys.s.peers[p]? = some ps → ∃ g, x.ghost[p]? = some g ∧ PeerInv x.sys.s ps g
   rev_zero : x.sys.s.wantlist.revision = 0 → ∀ k : Nat, k ∉ x.sys.s.wantlist.cids
   conns_nonempty : ∀ (p : Nat) (ps : PeerSt), x.sys.s.peers[p]? = some ps → ps.conns.isEmpty = false
+  /-- the event queue never holds a `send` (sends are produced by `update_handlers` only) -/
+  queue_nosend : ∀ (p c : Nat) (m : WlMsg), Out.send p c m ∉ x.sys.s.queue
 
 /-! ### Query bookkeeping (C03, C13) -/
 
